@@ -1754,10 +1754,12 @@ typename olc_db<Key, Value>::try_get_result_type olc_db<Key, Value>::try_get(
     }
 
     auto* const inode{node.ptr<inode_type*>()};
-    const auto& key_prefix{inode->get_key_prefix()};
+    // Take a snapshot of the key prefix: the node may be changing under us,
+    // and the prefix length and bytes must come from the same prefix word.
+    const auto key_prefix{inode->get_key_prefix().get_snapshot()};
     const auto key_prefix_length{key_prefix.length()};
     const auto shared_key_prefix_length{
-        key_prefix.get_shared_length(remaining_key)};
+        key_prefix.get_shared_length(remaining_key.get_u64())};
 
     if (shared_key_prefix_length < key_prefix_length) {
       if (UNODB_DETAIL_UNLIKELY(!node_critical_section.try_read_unlock()))
@@ -1889,10 +1891,12 @@ olc_db<Key, Value>::try_insert(art_key_type k, value_type v,
     UNODB_DETAIL_ASSERT(node_type != node_type::LEAF);
 
     auto* const inode{node.template ptr<inode_type*>()};
-    const auto& key_prefix{inode->get_key_prefix()};
+    // Take a snapshot of the key prefix: the node may be changing under us,
+    // and the prefix length and bytes must come from the same prefix word.
+    const auto key_prefix{inode->get_key_prefix().get_snapshot()};
     const auto key_prefix_length{key_prefix.length()};
     const auto shared_prefix_length{
-        key_prefix.get_shared_length(remaining_key)};
+        key_prefix.get_shared_length(remaining_key.get_u64())};
 
     if (shared_prefix_length < key_prefix_length) {
       create_leaf_if_needed(cached_leaf, k, v, *this);
@@ -2027,10 +2031,12 @@ olc_db<Key, Value>::try_remove(art_key_type k) {
     UNODB_DETAIL_ASSERT(node_type != node_type::LEAF);
 
     auto* const inode{node.template ptr<inode_type*>()};
-    const auto& key_prefix{inode->get_key_prefix()};
+    // Take a snapshot of the key prefix: the node may be changing under us,
+    // and the prefix length and bytes must come from the same prefix word.
+    const auto key_prefix{inode->get_key_prefix().get_snapshot()};
     const auto key_prefix_length{key_prefix.length()};
     const auto shared_prefix_length{
-        key_prefix.get_shared_length(remaining_key)};
+        key_prefix.get_shared_length(remaining_key.get_u64())};
 
     if (shared_prefix_length < key_prefix_length) {
       if (UNODB_DETAIL_UNLIKELY(!parent_critical_section.try_read_unlock()))
